@@ -1323,6 +1323,12 @@ func (loader *Loader) resolvePathItemRef(doc *T, pathItem *PathItem, documentPat
 				}
 				return
 			}
+			if resolved.Ref != "" && resolved.isEmpty() {
+				// the designated path item is itself a reference that has not been followed yet
+				if err = loader.resolvePathItemRef(doc, &resolved, documentPath); err != nil {
+					return
+				}
+			}
 			*pathItem = resolved
 		}
 		pathItem.Ref = ref
